@@ -156,7 +156,8 @@ func worker() {
 					// point can end (function / content reader failing included); once the call has
 					// returned, a non-blocking exclusive flock on a fresh descriptor must be granted
 					kind := []string{"Write", "Write whose content reader fails", "Transform", "Transform whose function fails", "Create+Close", "Edit+Close", "Open+Close", "Mutex.Lock+unlock",
-						"Create+Close with the descriptor duplicated", "Edit+Close with the descriptor duplicated", "Open+Close with the descriptor duplicated"}[rng.Intn(11)]
+						"Create+Close with the descriptor duplicated", "Edit+Close with the descriptor duplicated", "Open+Close with the descriptor duplicated",
+						"OpenFile(O_CREATE|O_EXCL) of a new path+Close", "OpenFile(O_CREATE|O_EXCL) of a new path+Close"}[rng.Intn(13)]
 					// "with the descriptor duplicated": a second descriptor for the same open file description
 					// exists when Close is called (what a child process that inherited the descriptor, or a
 					// fork in progress in another goroutine, amounts to): Close must release the lock itself,
@@ -177,9 +178,14 @@ func worker() {
 					case "Transform whose function fails":
 						wantErr = true
 						err = lockedfile.Transform(priv, func(old []byte) ([]byte, error) { return nil, errProbe })
-					case "Create+Close", "Edit+Close", "Open+Close", "Create+Close with the descriptor duplicated", "Edit+Close with the descriptor duplicated", "Open+Close with the descriptor duplicated":
+					case "Create+Close", "Edit+Close", "Open+Close", "Create+Close with the descriptor duplicated", "Edit+Close with the descriptor duplicated", "Open+Close with the descriptor duplicated",
+						"OpenFile(O_CREATE|O_EXCL) of a new path+Close":
 						var f *lockedfile.File
 						switch kind0 {
+						case "OpenFile(O_CREATE|O_EXCL) of a new path+Close":
+							// the holder creates the lock file itself: nobody can have locked it before, anybody can try after
+							os.Remove(priv)
+							f, err = lockedfile.OpenFile(priv, os.O_RDWR|os.O_CREATE|os.O_EXCL, 0o666)
 						case "Create+Close":
 							f, err = lockedfile.Create(priv)
 						case "Edit+Close":
@@ -194,6 +200,18 @@ func worker() {
 								dupFd, _ = syscall.Dup(int(f.Fd()))
 							}
 							dwell()
+							// held probe: while the File is open, an exclusive lock request on a fresh descriptor
+							// (what any other party's acquisition amounts to) must be refused
+							if hf, herr := os.OpenFile(priv, os.O_RDWR, 0); herr == nil {
+								if ferr := syscall.Flock(int(hf.Fd()), syscall.LOCK_EX|syscall.LOCK_NB); ferr == nil {
+									viol("lock-not-held", fmt.Sprintf("pid %d: %s on %s has returned a File that is still open, but the file is not locked: a non-blocking exclusive flock on a fresh descriptor was granted", os.Getpid(), kind0, filepath.Base(priv)))
+									syscall.Flock(int(hf.Fd()), syscall.LOCK_UN)
+								}
+								hf.Close()
+								mu.Lock()
+								res.Acq["(held probe) "+kind0]++
+								mu.Unlock()
+							}
 							err = f.Close()
 						}
 					default:
@@ -466,7 +484,7 @@ func main() {
 		return
 	}
 	vlib.Main("C06", "exploration", 10*time.Minute, func(r *vlib.Run) {
-		r.Rule("rounds of P processes x G goroutines released together, each doing N acquisitions on 2-3 lock paths (regular files; every other round also one private character device or FIFO, whose truncation by Create/Write fails and is tolerated) through a random entry point (OpenFile O_RDONLY/O_WRONLY/O_RDWR, Open, Create, Edit, Mutex.Lock, inside Transform's function, inside the reader handed to Write), dwelling 0-300us inside, with seeded delays at the lockedfile.open/close hooks; every second worker process closes its standard input first, so that lock files are opened on descriptor 0; one round in six runs its workers as uid 65534 on lock files they can read but not write (write-locking entry points must be refused, not weakened); every third round the workers run under strace, which makes every other flock call of every thread fail with EINTR (an interrupted lock request must be reissued, never taken for granted) or, in every other such round, every third one with ENOSYS (a refused lock request must surface as an error, never as an unlocked file); in the other rounds one operation in 16 is a release probe: an acquisition on a path private to the goroutine, ended in each way an entry point can end (Write / Write whose content reader fails / Transform / Transform whose function fails / Create, Edit, Open + Close, also while a duplicate of the descriptor is open elsewhere / Mutex.Lock + unlock), after whose return a non-blocking exclusive flock on a fresh descriptor must be granted; five holders (Edit / Create / Mutex.Lock) that drop their reference without closing and run the collector: while such a process lives nobody else is granted the lock. Evaluations = acquisitions; distinct non-trivial = acquisitions that found a conflicting holder inside when they were invoked (had to wait), plus rounds.")
+		r.Rule("rounds of P processes x G goroutines released together, each doing N acquisitions on 2-3 lock paths (regular files; every other round also one private character device or FIFO, whose truncation by Create/Write fails and is tolerated) through a random entry point (OpenFile O_RDONLY/O_WRONLY/O_RDWR, Open, Create, Edit, Mutex.Lock, inside Transform's function, inside the reader handed to Write), dwelling 0-300us inside, with seeded delays at the lockedfile.open/close hooks; every second worker process closes its standard input first, so that lock files are opened on descriptor 0; one round in six runs its workers as uid 65534 on lock files they can read but not write (write-locking entry points must be refused, not weakened); every third round the workers run under strace, which makes every other flock call of every thread fail with EINTR (an interrupted lock request must be reissued, never taken for granted) or, in every other such round, every third one with ENOSYS (a refused lock request must surface as an error, never as an unlocked file); in the other rounds one operation in 16 is a release probe: an acquisition on a path private to the goroutine, ended in each way an entry point can end (Write / Write whose content reader fails / Transform / Transform whose function fails / Create, Edit, Open + Close, also while a duplicate of the descriptor is open elsewhere, OpenFile with O_CREATE|O_EXCL of a path that does not exist yet / Mutex.Lock + unlock; while a File is open an exclusive request on a fresh descriptor must be refused), after whose return a non-blocking exclusive flock on a fresh descriptor must be granted; five holders (Edit / Create / Mutex.Lock) that drop their reference without closing and run the collector: while such a process lives nobody else is granted the lock. Evaluations = acquisitions; distinct non-trivial = acquisitions that found a conflicting holder inside when they were invoked (had to wait), plus rounds.")
 		r.Assume("flock semantics of the host kernel; the occupancy word is updated only between an acquiring call's return and the releasing call's invocation")
 		base := vlib.Scratch()
 		rounds := r.Pick(6, 28)
